@@ -198,6 +198,87 @@ theorem mortar_after_split (s : Host) (hv : s.Valid) (i nLow : Nat) (hi : i < s.
       · rintro ⟨hl, hor⟩
         exact ((hg l hl).2.2 g hgc).mpr hor
 
+/-! ### the hypotheses as decidable input conditions -/
+
+/-- `valid_of_check`: `Host.Valid` follows from the boolean check `validB`, which the driver evaluates
+    on the input of every correspondence case (the harness requires it to be true). -/
+theorem valid_of_check (s : Host) (h : s.validB = true) : s.Valid := valid_of_validB h
+
+/-- `split_checked`: every statement about `split_faces` with decidable hypotheses only: for an input
+    that passes `validB` and carries no fracture tags, `split_faces` does not raise, every
+    lower-dimensional cell matched to an untagged host face ends up with exactly two coupled faces (the
+    face and its duplicate, one incident cell each, same stored geometry, opposite incidence signs) and
+    with exactly one where the host is tagged, and the fracture tag marks exactly the coupled faces. -/
+theorem split_checked (s : Host) (hv : s.validB = true) (h0 : s.noFracB = true) :
+    ∃ s', splitFaces s = .ok s' ∧
+      (∀ g, g < s'.nF → (s'.frac g = true ↔ ∃ j, j < s.nFr ∧ (s'.fc j g).isSome = true)) ∧
+      (∀ i f l, i < s.nFr → f < s.nF → s.fc i f = some l →
+        (s.rem f = true → s'.coupledCount i l = 1) ∧
+        (s.rem f = false → s'.coupledCount i l = 2 ∧ ∃ d a b, (f, d) ∈ s'.pairs ∧ s'.fc i d = some l ∧
+          s'.inc f = [a] ∧ s'.inc d = [b] ∧ s'.normal d = s'.normal f ∧ b.sign = -a.sign)) := by
+  have hval := valid_of_validB hv
+  obtain ⟨s', h, _, hp⟩ := split_face_pairs s hval
+  obtain ⟨s'', h', ht⟩ := tags_mark_coupled s hval (noFrac_of_noFracB h0)
+  rw [h] at h'; injection h' with h'; subst h'
+  refine ⟨s', h, ht, ?_⟩
+  intro i f l hi hf hfl
+  refine ⟨fun hr => ((hp i f l hi hf hfl).1 hr).1, fun hr => ⟨((hp i f l hi hf hfl).2 hr).1, ?_⟩⟩
+  obtain ⟨d, a, b, h1, h2, h3, h4, _, _, h7, h8, _, _⟩ := split_normals_opposite s s' hval h i f l hi hf hfl hr
+  exact ⟨d, a, b, h1, h2, h3, h4, h7, h8⟩
+
+/-! ### entry points -/
+
+/-- `entry_dispatch`: `cart_grid` reaches a structured generator iff the number of cells is given for
+    2 or 3 directions and `physdims` (if given) has the same length; otherwise it raises ValueError.
+    `tensor_grid` raises NotImplementedError without `y`, else meshes in 2-d or 3-d. -/
+theorem entry_dispatch (ndim : Nat) (phys : Option Nat) (hasY hasZ : Bool) :
+    (cartGridDispatch ndim phys = .ok ndim ↔ (ndim = 2 ∨ ndim = 3) ∧ (phys = none ∨ phys = some ndim)) ∧
+    (cartGridDispatch ndim phys ≠ .ok ndim → cartGridDispatch ndim phys = .error .valueError) ∧
+    (tensorGridDispatch hasY hasZ = if hasY then .ok (if hasZ then 3 else 2) else .error .notImplementedError) := by
+  refine ⟨?_, ?_, ?_⟩
+  · unfold cartGridDispatch
+    cases phys with
+    | none =>
+      by_cases h2 : ndim = 2
+      · simp [h2]
+      · by_cases h3 : ndim = 3
+        · simp [h3]
+        · simp [h2, h3]
+    | some p =>
+      by_cases hp : p = ndim
+      · subst hp
+        by_cases h2 : p = 2
+        · simp [h2]
+        · by_cases h3 : p = 3
+          · simp [h3]
+          · simp [h2, h3]
+      · have : ¬ (some p = some ndim) := fun e => hp (Option.some.inj e)
+        simp [hp, this]
+  · intro h
+    unfold cartGridDispatch at h ⊢
+    cases phys with
+    | none =>
+      by_cases h2 : ndim = 2
+      · simp [h2] at h
+      · by_cases h3 : ndim = 3
+        · simp [h3] at h
+        · simp [h2, h3]
+    | some p =>
+      by_cases hp : p = ndim
+      · subst hp
+        by_cases h2 : p = 2
+        · simp [h2] at h
+        · by_cases h3 : p = 3
+          · simp [h3] at h
+          · simp [h2, h3]
+      · simp [hp]
+  · unfold tensorGridDispatch
+    cases hasY <;> cases hasZ <;> rfl
+
+example : cartGridDispatch 3 (some 3) = .ok 3 ∧ cartGridDispatch 2 none = .ok 2 ∧ cartGridDispatch 4 none = .error .valueError ∧
+    cartGridDispatch 2 (some 3) = .error .valueError ∧ tensorGridDispatch false true = .error .notImplementedError := by
+  decide
+
 /-! ### structured generators (`fracs/structured.py`): index arithmetic -/
 
 /-- `nodes_on_line_eq`: `_find_nodes_on_line` between the nodes `a` and `a + m·e_axis` of a tensor
@@ -433,6 +514,8 @@ example : (splitFaces exX).toOption.map (fun s => ((createInterface 2 (s.fc 0) s
     = some (some ⟨2, [(0, 8), (1, 9), (0, 12), (1, 13)]⟩, some ⟨2, [(0, 1), (1, 4), (0, 14), (1, 15)]⟩) := by
   decide +kernel
 
+example : exX.validB = true ∧ exX.noFracB = true := by decide +kernel
+
 example : exX.RowsWF := by
   intro g hg
   have : 12 ≤ g := hg
@@ -488,6 +571,8 @@ theorem exT_valid : exT.Valid where
     split at hs'
     · rename_i h; obtain ⟨_, rfl⟩ := h; cases hr
     · cases hs'
+
+example : exT.validB = true ∧ exT.noFracB = true := by decide +kernel
 
 example : (splitFaces exT).toOption.map (fun s => (view1 s, (List.range s.nF).map s.tip))
     = some (([[(0, -1)], [(0, 1), (1, -1)], [(1, 1)]], [true, false, false]), [false, false, true]) := by
